@@ -365,6 +365,12 @@ func (cl *Client) pickConn() (*Conn, error) {
 const roundTripAttempts = 4
 
 func (cl *Client) RoundTrip(_ *fasthttp.HostClient, req *fasthttp.Request, res *fasthttp.Response) (retry bool, err error) {
+	// Asked before the first attempt: a connection that is done with a streamed
+	// body closes it, and from then on the request says it has none. Asking
+	// afterwards sent a disclaimed upload again with an empty body, and
+	// reported that as a success.
+	streamed := req.IsBodyStream()
+
 	for attempt := 0; ; attempt++ {
 		err = cl.roundTripOnce(req, res)
 		if err == nil || !retryable(err) {
@@ -373,7 +379,7 @@ func (cl *Client) RoundTrip(_ *fasthttp.HostClient, req *fasthttp.Request, res *
 
 		// A request the server disclaimed did go out, body and all. A body
 		// that was streamed from a reader cannot be produced a second time.
-		if errors.Is(err, ErrNotProcessed) && req.IsBodyStream() {
+		if errors.Is(err, ErrNotProcessed) && streamed {
 			return false, err
 		}
 
